@@ -21,7 +21,7 @@ func init() { Register(c11{}) }
 
 func (c11) Name() string { return "c11" }
 func (c11) Rule() string {
-	return "seeded histories of 2..6 operations (Load(root_i), LoadFromContent(root_i,text), external rewrite / creation / deletion of a file followed by InvalidateFile or ClearCache, ClearCache, SetLimits, a load hit by one one-shot disk fault (enoent, eio, torn read, stat-then-delete, stat-small-then-grow; torn/deleted/grown files are invalidated afterwards) whose own result is not judged but which must not poison the cache) on ONE shared include.Loader over a generated include graph of 2..5 files (relative/./absolute/~/glob forms, cycles, diamonds, chains longer than the depth limit, files above the size limit) on the simulated disk; include depth limit default or 1..4, size limit default or small; after every load a fresh loader with the same limits on the same disk must return equal Files, FileOrder, syntax trees and errors. Concurrent class (a quarter of the runs): a Load is in flight as a scheduled task, preempted at every lock and disk call, while another task rewrites a file and invalidates it (or changes the limits, or clears the cache); once both are done a further load on the shared loader must equal a fresh loader. Non-trivial: at least two loads and at least one load that hit the cache on a file that itself has includes, or an invalidation between two loads, or an invalidation that landed inside a load. Distinct: hash of (graph shape, limits, operation sequence, interleaving)."
+	return "seeded histories of 2..6 operations (Load(root_i), LoadFromContent(root_i,text), external rewrite / creation / deletion of a file followed by InvalidateFile or ClearCache, ClearCache, SetLimits, a load hit by one one-shot disk fault (enoent, eio, torn read, stat-then-delete, stat-small-then-grow; torn/deleted/grown files are invalidated afterwards) whose own result is not judged but which must not poison the cache) on ONE shared include.Loader over a generated include graph of 2..5 files (relative/./absolute/~/glob forms, cycles, diamonds, chains longer than the depth limit, files above the size limit) on the simulated disk; include depth limit default or 1..4, size limit default or small; after every load a fresh loader with the same limits on the same disk must return equal Files, FileOrder, syntax trees and errors. Concurrent class (a quarter of the runs): a Load is in flight as a scheduled task, preempted at every lock and disk call, while another task rewrites a file and invalidates it (or changes the limits, or clears the cache); once both are done the in-flight load must have returned what a fresh loader returns before or after the change (old or new, never a mixture) and a further load on the shared loader must equal a fresh loader. Non-trivial: at least two loads and at least one load that hit the cache on a file that itself has includes, or an invalidation between two loads, or an invalidation that landed inside a load. Distinct: hash of (graph shape, limits, operation sequence, interleaving)."
 }
 func (c11) Enumerated(string) int { return 0 }
 func (c11) Components() ([]string, []string) {
@@ -331,7 +331,12 @@ func c11Concurrent(ctx *RunCtx, w *IncWorld, shared *include.Loader, limits *inc
 		}
 		ctx.T("Load(%s) to warm the cache", root.Path)
 	}
-	simrt.Go("c11:load", func() { shared.Load(root.Path) })
+	// what a fresh loader returns before the change (the in-flight load may
+	// legitimately see the old or the new state of the file, never a mixture)
+	beforeRes, beforeErrs := newFresh().Load(root.Path)
+	var flightRes *include.ResolvedJournal
+	var flightErrs []include.LoadError
+	simrt.Go("c11:load", func() { flightRes, flightErrs = shared.Load(root.Path) })
 	loadTask := sched.Tasks[len(sched.Tasks)-1]
 	pre := c.Choose("steps-before-change", 24)
 	steps := 0
@@ -402,6 +407,22 @@ func c11Concurrent(ctx *RunCtx, w *IncWorld, shared *include.Loader, limits *inc
 	ctx.SigExtra = fmt.Sprintf("conc:%s:%d:%d:%s", root.Path, how, steps, at)
 	if inFlight {
 		ctx.Stats.Inc("probe:invalidation-inside-a-load")
+	}
+	if how != 2 && limits.MaxFileSizeBytes == include.DefaultLimits().MaxFileSizeBytes {
+		// (with a small size limit a file that grows between the stat and the read
+		// of the in-flight load is admitted with its new content: an environment
+		// race, not a mixture the loader made)
+		// old or new, never garbage: the result of the load that was in flight
+		// equals a fresh load of the state before or after the change
+		dOld := loadResultEqual(flightRes, flightErrs, beforeRes, beforeErrs)
+		dNew := loadResultEqual(flightRes, flightErrs, fres, ferrs)
+		if dOld != "" && dNew != "" {
+			ctx.T("  IN-FLIGHT MISMATCH: vs before: %s; vs after: %s", dOld, dNew)
+			ctx.Fail(&Violation{Property: "C11", Oracle: "fresh-loader", Class: "in-flight-load-neither-old-nor-new",
+				Msg: fmt.Sprintf("the load of %s that was in flight (parked at %q) when %s returned neither what a fresh loader returns before the change (%s) nor after it (%s)", root.Path, at, told, dOld, dNew)})
+			return
+		}
+		ctx.Stats.Inc("probe:in-flight-load-judged-old-or-new")
 	}
 	if d := loadResultEqual(res, errs, fres, ferrs); d != "" {
 		ctx.T("  MISMATCH: %s", d)
